@@ -21,13 +21,34 @@ ANCHORS = [("leuvenmapmatching/matcher/base.py", "BaseMatcher._match_non_emittin
            ("leuvenmapmatching/matcher/base.py", "LatticeColumn.upsert"),
            ("leuvenmapmatching/matcher/base.py", "BaseMatching.update")]
 FLOORS = {"pairs_judged": 1800, "on_run_uses_nonemitting": 500, "results_differ": 300, "both_complete": 800, "on_run_longer": 50,
-          "family:simple": 300, "family:simple_nodes": 300, "family:distance": 300, "debug_level_pairs": 400}
+          "family:simple": 300, "family:simple_nodes": 300, "family:distance": 300, "debug_level_pairs": 400, "linked_edge_pairs": 500}
 ASSUMPTIONS = ["both runs are instantiated from one explicit configuration dict; only `non_emitting` differs",
                "best probability compared at 1e-9*max(1,|x|)"]
 
 
 def gen_case(rng, i, tier):
+    if i % 10 == 7:
+        case = gen.gen_carriageway_case(rng)   # linked parallel carriageways with a by-pass ending in the same node
+        case["cfg"].update(non_emitting=False, agb=False, width=None)
+        case["debug"] = False
+        case["linked_class"] = True
+        return case
+    if i % 10 == 3:
+        from .C04 import gen_shared_end_case
+        case = gen_shared_end_case(rng)   # linked parallel edges, two edges ending in one node
+        case["cfg"].update(non_emitting=False, agb=False, width=None)
+        case["debug"] = False
+        case["linked_class"] = True
+        return case
     case = mcase.gen_mcase(rng, ne=False, width=False, agb=False, tighten_p=0.3, sparse_p=0.55, max_obs=9)
+    if case["cfg"]["family"] != "simple_nodes" and rng.random() < 0.15:
+        es = gen.real_edges(case["map"])
+        if len(es) >= 2:
+            linked = []
+            for _ in range(rng.randint(1, 4)):
+                a, b = rng.sample(es, 2)
+                linked += [[list(a), list(b)], [list(b), list(a)]]
+            case["map"]["linked"] = linked
     if rng.random() < 0.3:
         # exact ties between a non-emitting chain and the direct emitting candidate: no length penalty, observations ON the roads
         case["cfg"]["ne_factor"] = 1.0
@@ -70,6 +91,8 @@ def check_case(ctx, case):
     ctx.count("pairs_judged")
     if case.get("debug"):
         ctx.count("debug_level_pairs")
+    if case["map"].get("linked"):
+        ctx.count("linked_edge_pairs")
     ctx.count(f"family:{fam}")
     n = len(tr)
     oi = -1 if off["empty"] else off["idx"]
